@@ -108,9 +108,31 @@ func vsimProcWait(pr *os.Process) (*os.ProcessState, error) {
 	return pr.Wait()
 }
 
+// VPoisonPid makes the stub Wait4 end the calling goroutine: used at the end of a simulated run to
+// retire the server's wait loop, which in reality ends with the process.
+const VPoisonPid = -424242
+
+// VRetireServer asks the wait loop of the last simulated server to exit (it must be idle).
+func VRetireServer() {
+	vmu.Lock()
+	c := vserver
+	vserver = nil
+	vmu.Unlock()
+	if c == nil {
+		return
+	}
+	select {
+	case c.waitPid <- VPoisonPid:
+	default:
+	}
+}
+
+var vserver *containerServer
+
 func vsimServeStart(c *containerServer) {
 	vmu.Lock()
 	conf := vconf
+	vserver = c
 	vmu.Unlock()
 	if conf == nil {
 		return
